@@ -25,6 +25,8 @@ namespace bluetoe {
         /** @endcond */
     };
 
+    struct is_secondary_service;
+
     namespace details {
         struct is_secondary_service_meta_type {};
         struct include_service_meta_type {};
@@ -156,6 +158,7 @@ namespace bluetoe {
 
         static_assert( !std::is_same< uuid, details::no_such_type >::value, "Please provide a UUID to the service (service_uuid or service_uuid16 for example)." );
 
+        static constexpr bool        is_secondary                        = details::has_option< is_secondary_service, Options... >::value;
         static constexpr std::size_t number_of_service_attributes        = details::count_service_attributes< Options... >::number_of_attributes;
         static constexpr std::size_t number_of_characteristic_attributes = details::sum_by< characteristics, details::sum_by_attributes >::value;
         static constexpr std::size_t number_of_client_configs            = details::sum_by< characteristics, details::sum_by_client_configs >::value;
